@@ -129,6 +129,12 @@ type PathSample struct {
 	PCSize    int               `json:"pc_conjuncts"`
 	Model     map[string]string `json:"model,omitempty"`
 	Reached   []string          `json:"reached,omitempty"`
+	// what a native replay of this (passing) path needs
+	Choices    []int                  `json:"choices,omitempty"`
+	Stack      []ReplayDecision       `json:"stack,omitempty"`
+	Extra      map[string]interface{} `json:"extra,omitempty"`
+	Goroutines int                    `json:"goroutines,omitempty"`
+	Stubbed    bool                   `json:"stubbed,omitempty"`
 }
 
 type Result struct {
@@ -151,6 +157,7 @@ type Result struct {
 	Intrinsics     map[string]int `json:"intrinsics_used"`
 	Stubs          map[string]int `json:"stubs_used"`
 	Samples        []PathSample   `json:"samples"`
+	BestSample     *PathSample    `json:"native_sample,omitempty"`
 	Bounds         map[string]interface{} `json:"bounds"`
 	Steps          int64          `json:"ssa_instructions"`
 	InitSkips      int            `json:"init_skips"`
@@ -1121,8 +1128,28 @@ func (m *Machine) exploreJob(entry *ssa.Function, job []decision) bool {
 			for _, r := range m.reachedNow {
 				m.res.Reached[r]++
 			}
-			if len(m.res.Samples) < 3 && end.kind == "done" {
-				m.res.Samples = append(m.res.Samples, PathSample{Decisions: m.decisionString(), End: end.kind, PCSize: len(m.pc), Reached: m.reachedNow})
+			if end.kind == "done" && (len(m.pc) == 0 || m.model != nil) {
+				// one sample per harness is kept for translator validation: the natively replayable
+				// passing path with the smallest decision string (deterministic whatever the workers do)
+				dec := m.decisionString()
+				nativeOK := len(m.stubs) == 0 && len(m.gs) <= 1
+				for _, d := range m.stack {
+					switch d.kind {
+					case "br", "conc", "choice":
+					default:
+						nativeOK = false
+					}
+				}
+				if nativeOK && (m.res.BestSample == nil || dec < m.res.BestSample.Decisions) {
+					ps := PathSample{Decisions: dec, End: end.kind, PCSize: len(m.pc), Reached: m.reachedNow,
+						Choices: append([]int{}, m.choices...), Stack: m.replayStack(), Goroutines: len(m.gs)}
+					ps.Model = modelStrings(m.model)
+					ps.Extra = map[string]interface{}{"hashes": m.exportHashes(m.model)}
+					m.res.BestSample = &ps
+				}
+				if len(m.res.Samples) < 3 {
+					m.res.Samples = append(m.res.Samples, PathSample{Decisions: dec, End: end.kind, PCSize: len(m.pc), Reached: m.reachedNow})
+				}
 			}
 		case "infeasible", "abort":
 		case "violation":
@@ -1295,6 +1322,9 @@ func exploreAll(l *loaded, entries []Entry, opts Options, workers int, cross int
 			res.Violations = append(res.Violations, r.Violations...)
 			if len(res.Samples) < 4 {
 				res.Samples = append(res.Samples, r.Samples...)
+			}
+			if r.BestSample != nil && (res.BestSample == nil || r.BestSample.Decisions < res.BestSample.Decisions) {
+				res.BestSample = r.BestSample
 			}
 			ss := &res.Solver
 			rs := r.Solver
